@@ -10,6 +10,12 @@ CLAIMS = {
  "C04": dict(ref="§4 C04",
    text="Proof (any number of components, every subset of free parameters): each row appended by jacobian equals the mathematical partial derivative of elliptical_gaussian's own expression w.r.t. that parameter (theta per degree), rows are in component-major documented order (loop invariant over the ghost index IDX), only varying parameters get rows; lmfit_jacobian = transpose((J/errs).B); covar_errors assigns stderr(i,p) = onesigma[IDX(i)+rank(i,p)] (loop invariant), leaves other stderr untouched, and composes the Fisher matrix as J^T inv(C) J or (JB)^T(JB).",
    note="floats as reals; numpy elementwise ops pointwise (generic pixel); linear algebra calls as structural matrix terms (inv/dot/diag/sqrt contracts assumed); derivative identities decided by the pyvc ring normaliser + z3"),
+ "C06": dict(ref="§4 C06",
+   text="Proof of the index/dataflow contract of a BANE stripe (row-interval abstract domain over the real sigma_filter): loaded rows = stripe +- half a box, plane/BSCALE handling, both passes 3-sigma clip boxes of the loaded data that lie inside it, EVERY row entering a pass-2 (noise) box has had the background subtracted with aligned slices, the interpolation grids are strictly increasing with >= 2 nodes and contain every query point, own rows of both maps are written exactly once, masking blanks both maps on own rows for every non-finite pixel; sigmaclip returns (nan,nan) for empty input, otherwise mean/std of a non-empty selection of the finite values (hence range bounds) and (c,0) for a constant input. The +c / *k / range / constant-image clauses follow with the assumed numpy mean/std and RegularGridInterpolator contracts and are cross-checked on real BANE runs.",
+   note="numpy mean/std, RegularGridInterpolator, fits section contracts assumed; statistical (Gaussian) clause not decided; floats as reals"),
+ "C07": dict(ref="§4 C07",
+   text="Proof of the structural preconditions of termination under the assumed Barrier/Pool contracts: stripes tile the rows (symbolic rows/grid/cores/stripes, nonlinear layout arithmetic), one task per stripe (loop invariant), Barrier(parties) = tasks <= Pool(processes), each worker path waits exactly 1+domask times independent of data and never resets the barrier, a failing worker aborts the barrier before re-raising, both shared-memory segments are closed and unlinked on every exit path (incl. creation failures), the rows a stripe loads depend on the layout only through stripe +- half a box. Interleavings are not decided by contracts; a watchdogged native run covers stripes>cores, surplus stripes, fault injection per stripe and bit-identity across worker counts.",
+   note="multiprocessing Barrier/Pool/SharedMemory contracts assumed; schedule-quantified clauses (bit-identity, stripe-count sensitivity, promptness) only exercised natively"),
  "C08": dict(ref="§4 C08",
    text="Proof by induction over the representation invariant WF (valid integer ids, coherent demoted cache, no shared set objects): for an arbitrary well-formed region state with fully symbolic pixel sets, every public Region operation (add_pixels, get_demoted, _renorm, union incl. finer/coarser operands, without, intersect, symmetric_difference, get_area, __init__) preserves WF, has its set-algebra postcondition on the deepest-level view, leaves the other operand's view unchanged, and normalising operations leave no patch of sky represented twice. Set-iteration loops are cut by functional invariants over a ghost done-set. The depth is enumerated (1..3 quick, 1..4 thorough), contents are unbounded.",
    note="bounded in depth (maxdepth enumerated), unbounded in content; python set semantics, healpy returns valid ids, pickle identity assumed; get_area = card(V)*A(D) not decided deductively (native cross-check only)"),
